@@ -626,6 +626,15 @@ func (bal *Balancer) balanceBlock(blkid arvados.SizedDigest, blk *BlockState) ba
 	// class that's currently underreplicated -- in that case we
 	// won't want to trash any replicas.
 	underreplicated := false
+	for class, desired := range blk.Desired {
+		if desired > 0 && bal.mountsByClass[class] == nil {
+			// No mount offers this storage class, so the
+			// desired state cannot be reached: treat the
+			// block as underreplicated (trash nothing)
+			// rather than as unreferenced.
+			underreplicated = true
+		}
+	}
 
 	unsafeToDelete := make(map[int64]bool, len(slots))
 	for _, class := range bal.classes {
